@@ -11,7 +11,10 @@ package main
 import (
 	"errors"
 	"fmt"
+	"net/http"
+	"net/url"
 	"runtime"
+	"sort"
 	"strings"
 	"sync"
 	"sync/atomic"
@@ -386,4 +389,80 @@ func concurrent(run *kit.Run) {
 	}
 	run.Count("concurrent_single_snapshot_reads", reads.Load())
 	run.Count("concurrent_torn_reads", torn.Load())
+	allowFlip(run)
 }
+
+// allowFlip: one request is served from one routing state. Transactions flip the methods registered for a path
+// between two disjoint sets; the Allow header of a 405 / automatic OPTIONS reply computed while they commit must be
+// exactly one of the two sets, never a mixture (several lookups inside one ServeHTTP must use the same tree).
+func allowFlip(run *kit.Run) {
+	rounds := run.Pick(10, 100)
+	setA := []string{"GET", "POST", "FOO"}
+	setB := []string{"PUT", "PATCH", "BAR"}
+	want := map[string]bool{"FOO, GET, POST": true, "BAR, PATCH, PUT": true, "FOO, GET, OPTIONS, POST": true, "BAR, OPTIONS, PATCH, PUT": true}
+	var replies, mixed atomic.Int64
+	for round := 0; round < rounds; round++ {
+		f, _ := fox.New(fox.WithNoMethod(true), fox.WithAutoOptions(true))
+		h := func(fox.Context) {}
+		for _, m := range setA {
+			f.MustHandle(m, "/flip/{id}", h)
+		}
+		var wg sync.WaitGroup
+		var stop atomic.Bool
+		wg.Add(1)
+		go func() {
+			defer wg.Done()
+			cur, other := setA, setB
+			for i := 0; i < 300 && !stop.Load(); i++ {
+				_ = f.Updates(func(txn *fox.Txn) error {
+					for _, m := range cur {
+						if _, err := txn.Delete(m, "/flip/{id}"); err != nil {
+							return err
+						}
+					}
+					for _, m := range other {
+						if _, err := txn.Handle(m, "/flip/{id}", h); err != nil {
+							return err
+						}
+					}
+					return nil
+				})
+				cur, other = other, cur
+			}
+			stop.Store(true)
+		}()
+		for rd := 0; rd < 6; rd++ {
+			wg.Add(1)
+			go func(rd int) {
+				defer wg.Done()
+				for !stop.Load() {
+					method := "DELETE"
+					if rd%2 == 1 {
+						method = "OPTIONS"
+					}
+					w := &allowW{h: http.Header{}}
+					f.ServeHTTP(w, &http.Request{Method: method, URL: &url.URL{Path: "/flip/1"}, Header: http.Header{}, Proto: "HTTP/1.1", ProtoMajor: 1, ProtoMinor: 1})
+					parts := strings.Split(w.h.Get("Allow"), ", ")
+					sort.Strings(parts)
+					got := strings.Join(parts, ", ")
+					replies.Add(1)
+					if !want[got] {
+						mixed.Add(1)
+						stop.Store(true)
+						run.Violate(fmt.Sprintf("torn-allow|round=%d", round), fmt.Sprintf("a %s request answered while transactions flip the method set of its path got Allow=%q: neither the set before nor the set after a transaction", method, w.h.Get("Allow")), map[string]any{"round": round, "allow": w.h.Get("Allow")})
+					}
+				}
+			}(rd)
+		}
+		wg.Wait()
+		run.Case(fmt.Sprintf("allow-flip|%d", round), true)
+	}
+	run.Count("concurrent_allow_replies", replies.Load())
+	run.Count("concurrent_allow_mixed", mixed.Load())
+}
+
+type allowW struct{ h http.Header }
+
+func (w *allowW) Header() http.Header         { return w.h }
+func (w *allowW) Write(b []byte) (int, error) { return len(b), nil }
+func (w *allowW) WriteHeader(int)             {}
